@@ -60,6 +60,13 @@ func (ss *segmentStack) decRef() {
 			ss.lowerLevelSnapshot.Close()
 			ss.lowerLevelSnapshot = nil
 		}
+		if ss.refs == 0 {
+			// The ref-count that this stack holds on each of its child
+			// stacks is released along with it.
+			for _, childSegStack := range ss.childSegStacks {
+				childSegStack.decRef()
+			}
+		}
 	}
 	ss.m.Unlock()
 }
